@@ -2,7 +2,7 @@
 from .. import cfg, util, variants, translator as TR
 from ..core import RuleResult, need
 from ..facts import callee, op_local, op_place
-from ..origins import Origins, calls_in
+from ..origins import Origins, calls_in, fields_in
 
 RT = "ucglib::build::opcode::runtime::Builtins::"
 TC = "ucglib::ast::typecheck::"
@@ -12,6 +12,10 @@ VALUE = "ucglib::build::opcode::Value"
 COMPOSITE = "ucglib::build::opcode::Composite"
 PRIMITIVE = "ucglib::build::opcode::Primitive"
 # runtime kind -> the Shape variant the checker derives for a value of that kind (impl DeriveShape for Value)
+NARROWING = "ucglib::ast::NarrowingShape"
+# shapes the checker gives to a value it knows only partly (a parameter, an element of a list literal, a select result, an
+# included file): such a value can be of any kind at run time, so every dispatch on a dynamic type has to let them through
+PARTLY_KNOWN = ("Hole", "Narrowed[Any]", "Narrowed[Narrowed]")
 KIND2SHAPE = {"List": "List", "Tuple": "Tuple", "Str": "Str", "Int": "Int", "Float": "Float", "Bool": "Boolean"}
 
 
@@ -57,13 +61,18 @@ def checker_accepts(F, op):
         reach = variants.reach_multi(F, fn, entry, {SHAPE: s}, scrutinee_ok=lambda e, pl, b: is_target(pl), removed=terr)
         if reach & set(cfg.exits(fn)):
             out.add(s)
+    # a Narrowed shape is accepted per kind of knowledge: unconstrained / a list of candidates
+    for nv in F.variants(NARROWING):
+        reach = variants.reach_multi(F, fn, entry, {SHAPE: "Narrowed", NARROWING: nv}, scrutinee_ok=lambda e, pl, b: is_target(pl), removed=terr)
+        if reach & set(cfg.exits(fn)):
+            out.add("Narrowed[%s]" % nv)
     return out, fn
 
 
 def r21a(F):
     r = RuleResult("R21a", "functional-operator targets",
                    "for map, filter and reduce: every runtime kind of target the VM hook accepts is accepted (not a TypeErr) by "
-                   "derive_func_op_shape", floor=9, exhaustive=True)
+                   "derive_func_op_shape, and so is a target whose shape is only partly known", floor=18, exhaustive=True)
     for hook, op in (("map", "Map"), ("filter", "Filter"), ("reduce", "Reduce")):
         vm, vfn = vm_accepts(F, hook)
         need(vm, "no accepted target kind found for Builtins::%s" % hook)
@@ -73,6 +82,12 @@ def r21a(F):
             ok = s in chk
             r.inst("%s:%s" % (hook, k), cfn.where(), ok, "VM accepts %s, checker accepts Shape::%s" % (k, s) if ok else
                    "the VM evaluates `%s` over a %s but the checker rejects it (\"%s target must be a list\"): a valid program does not build" % (hook, k.lower(), hook))
+        for s in PARTLY_KNOWN:
+            ok = s in chk
+            r.inst("%s:partly-known:%s" % (hook, s), cfn.where(), ok, "a target of shape %s is let through" % s if ok else
+                   "a target whose shape is %s is a TypeErr for `%s` although such a value can be a list at run time (copy, call and "
+                   "`not` filter the candidates instead): `let l = [[1, 2], [3]]; let m = %s(f, l.0);` does not build"
+                   % ("a list of candidates" if s.endswith("[Narrowed]") else s, hook, hook))
         r.note("%s: VM accepts %s; checker accepts %s" % (hook, sorted(vm), sorted(chk)))
     return r
 
@@ -123,7 +138,7 @@ def r21b(F):
 
 def r21c(F):
     r = RuleResult("R21c", "other dynamic dispatches",
-                   "copy targets, `not` operands and `fail` messages: the checker accepts at least what the VM accepts", floor=4)
+                   "copy targets, `not` operands and `fail` messages: the checker accepts at least what the VM accepts, partly known shapes included", floor=10)
     # op_copy accepts Tuple and Module targets
     cs = F.fn(TC + "derive_copy_shape")
     o = Origins(cs)
@@ -133,6 +148,11 @@ def r21c(F):
         reach = variants.reach_multi(F, cs, 0, {SHAPE: s}, scrutinee_ok=lambda e, pl, b: is_base(pl), removed=terr)
         ok = bool(reach & set(cfg.exits(cs)))
         r.inst("copy:%s" % s, cs.where(), ok, "copy of a %s base is accepted" % s if ok else "the checker rejects copying a %s although the VM copies tuples and modules" % s)
+    for nv in F.variants(NARROWING):
+        reach = variants.reach_multi(F, cs, 0, {SHAPE: "Narrowed", NARROWING: nv}, scrutinee_ok=lambda e, pl, b: is_base(pl), removed=terr)
+        ok = bool(reach & set(cfg.exits(cs)))
+        r.inst("copy:Narrowed[%s]" % nv, cs.where(), ok, "copy of a partly known base is let through" if ok else
+               "the checker rejects copying a value of partly known shape (Narrowed[%s]) although it can be a tuple at run time" % nv)
     ns = F.fn(TC + "derive_not_shape")
     on = Origins(ns)
     terr = {b for b, j, pl, rv, m in ns.assigns() if pl["l"] == 0 and not pl["p"] and rv["k"] == "agg" and rv.get("adt") == SHAPE and rv.get("variant") == "TypeErr"}
@@ -141,6 +161,11 @@ def r21c(F):
         reach = variants.reach_multi(F, ns, 0, {SHAPE: s}, scrutinee_ok=lambda e, pl, b: is_shape(pl), removed=terr)
         ok = bool(reach & set(cfg.exits(ns)))
         r.inst("not:%s" % s, ns.where(), ok, "`not` of a %s is accepted" % s if ok else "the checker rejects `not` on a %s" % s)
+    for nv in F.variants(NARROWING):
+        reach = variants.reach_multi(F, ns, 0, {SHAPE: "Narrowed", NARROWING: nv}, scrutinee_ok=lambda e, pl, b: is_shape(pl), removed=terr)
+        ok = bool(reach & set(cfg.exits(ns)))
+        r.inst("not:Narrowed[%s]" % nv, ns.where(), ok, "`not` of a partly known value is let through" if ok else
+               "the checker rejects `not` on a value of partly known shape (Narrowed[%s]) although it can be a boolean at run time" % nv)
     return r
 
 
@@ -222,6 +247,139 @@ def r21p(F):
     return r
 
 
+DERIVE = "as ucglib::ast::typecheck::DeriveShape>::derive_shape"
+MERGES = {"BTreeMap::append": (1,), "::extend": (1,), "BTreeMap::insert": (1, 2), "HashMap::insert": (1, 2)}
+
+
+def _merge_kind(c):
+    for k, ws in MERGES.items():
+        if c.endswith(k) or (k == "::extend" and c.endswith("Extend<(K, V)>>::extend")) or (k == "::extend" and "::extend" in c and "BTreeMap" in c):
+            return ws
+    return None
+
+
+def r21s(F):
+    r = RuleResult("R21s", "a parameter shadows an outer binding in the checker's scope",
+                   "the symbol table FuncDef::derive_shape hands to the body is layered with the parameters on top: no whole-table "
+                   "merge (append / extend / insert: the incoming entry wins) writes entries that come from the enclosing scope only "
+                   "over the parameters without the parameters being written again afterwards. The VM binds the arguments in the "
+                   "innermost scope, so `let x = \"s\"; let f = func(x) => x + 1; f(2)` evaluates", floor=1)
+    fn = F.fn("<ucglib::ast::FuncDef " + DERIVE)
+    o = Origins(fn)
+    body = [(b, t) for b, t in fn.calls() if callee(t).endswith(DERIVE) and "fields" in fields_in(o.at(t["args"][0], b))]
+    need(len(body) == 1, "FuncDef::derive_shape: expected one derivation of the body (`fields`), found %d" % len(body))
+    bb, bt = body[0]
+    tpl = op_place(bt["args"][1])
+    need(tpl is not None, "FuncDef::derive_shape: the body's table is not a place")
+    tbl = set(o.alias[tpl["l"]]) | {tpl["l"]}
+    need(2 not in tbl, "FuncDef::derive_shape: the body is derived against the caller's own table (no scope is opened)")
+    merges = []
+    for b, t in fn.calls():
+        ws = _merge_kind(callee(t))
+        if ws is None or not t["args"]:
+            continue
+        rp = op_place(t["args"][0])
+        if rp is None or not ((set(o.alias[rp["l"]]) | {rp["l"]}) & tbl):
+            continue
+        if bb not in cfg.reachable(fn, b):
+            continue
+        labs = set()
+        for w in ws:
+            if w < len(t["args"]):
+                labs |= set(o.at(t["args"][w], b))
+        merges.append((b, callee(t), "argdefs" in fields_in(labs)))
+    # where the table starts from: a clone of the outer table or the collected parameters
+    start_params = any("argdefs" in fields_in(o.at({"l": l, "p": []}, bb)) for l in tbl)
+    need(merges or start_params, "FuncDef::derive_shape: the parameters never reach the body's table: idiom not recognised")
+    good = {b for b, c, has in merges if has}
+    n = 0
+    for b, c, has in merges:
+        if has:
+            continue
+        n += 1
+        # entries of the enclosing scope win here: the parameters must be written again before the body is derived
+        later = cfg.reachable(fn, b, removed=good)
+        ok = bb not in later
+        r.inst("FuncDef:outer-over-params:%s" % c.split("::")[-1], fn.where(b), ok,
+               "the parameters are written again before the body is derived" if ok else
+               "`%s` lets the enclosing scope's entries replace the parameters' (for a key present in both, the incoming value "
+               "wins) and nothing restores them: inside `func(x) => ..` a same-named outer `x` decides the shape of the parameter; "
+               "`let x = \"s\"; let f = func(x) => x + 1; let y = f(2);` is rejected (\"Expected str but got int\") although it "
+               "evaluates to 3" % c.split("::")[-1])
+    if not n:
+        r.inst("FuncDef:params-on-top", fn.where(bb), True, "every merge into the body's table writes parameter entries (%d merge call%s)"
+               % (len(merges), "" if len(merges) == 1 else "s"))
+    return r
+
+
+RESULT_FIELDS = [
+    # (impl type, result-carrying fields): sub-expressions whose value can BE the value of the expression
+    ("SelectDef", ("tuple", "default")),
+    ("FuncDef", ("fields",)),
+    ("ModuleDef", ("out_expr",)),
+]
+
+
+def r21d(F):
+    r = RuleResult("R21d", "every sub-expression that can be the result contributes to the derived shape",
+                   "select: each branch AND the default; func: the body; module: the out expression. A result the shape does not "
+                   "know about is rejected at its first use (`select (k, 1) => {a = \"s\"} + 1` evaluates to 2 when k is not `a`)",
+                   floor=4, exhaustive=True)
+    for ty, fields in RESULT_FIELDS:
+        fn = F.fn("<ucglib::ast::%s %s" % (ty, DERIVE))
+        o = Origins(fn)
+        labs = set()
+        for b in cfg.exits(fn):
+            labs |= set(o.at({"l": 0, "p": []}, b))
+        got = fields_in(labs)
+        for f in fields:
+            ok = f in got
+            r.inst("%s:%s" % (ty, f), fn.where(), ok, "flows into the shape" if ok else
+                   "%s::derive_shape never reads `%s`: a value of another type coming from it is unknown to the checker and its "
+                   "first use is rejected" % (ty, f))
+    return r
+
+
+def r21n(F):
+    r = RuleResult("R21n", "a parameter's open shape is not narrowed in the caller's scope",
+                   "derive_call_shape narrows the declared parameter shapes of the callee (FuncShapeDef.args) against the arguments. "
+                   "A parameter the body left open is Shape::Hole(<parameter name>), and narrowing a Hole writes the symbol of that "
+                   "name in the table it is given: when that table is the caller's own, a same-named binding of the caller is "
+                   "overwritten with the argument's shape", floor=1)
+    fn = F.fn(TC + "derive_call_shape")
+    o = Origins(fn)
+    sites = []
+    for b, t in fn.calls():
+        c = callee(t)
+        if not (c.endswith("Shape::narrow") or c.endswith("Shape::narrow_cached")):
+            continue
+        labs = set(o.at(t["args"][0], b)) | set(o.at(t["args"][1], b))
+        if "args" not in fields_in(labs):
+            continue
+        tp = op_place(t["args"][2])
+        own = tp is not None and 2 in (set(o.alias[tp["l"]]) | {tp["l"]})
+        sites.append((b, own))
+    need(sites, "derive_call_shape does not narrow the declared parameter shapes: idiom not recognised")
+    # can a Hole leave the function that owns it?  FuncDef::derive_shape stores the table entries as they are unless a
+    # crate function other than these handles them on the way
+    fd = F.fn("<ucglib::ast::FuncDef " + DERIVE)
+    passthrough = ("::derive_shape", "Shape::with_pos", "::clone", "::pos")
+    closing = []
+    for name in [fd.name] + [n for n in F.fns if n.startswith(fd.name + "::{closure")]:
+        for b, t in F.fn(name).calls():
+            c = callee(t)
+            if c.startswith("ucglib::") or c.startswith("<ucglib::"):
+                if not any(c.endswith(x) or x in c for x in passthrough):
+                    closing.append(c)
+    for b, own in sites:
+        bad = own and not closing
+        r.inst("call-site:declared-vs-actual", fn.where(b), not bad,
+               ("narrowed in a scope of its own" if not own else "FuncDef::derive_shape post-processes the parameter shapes (%s)" % closing[0]) if not bad else
+               "`declared_shape.narrow(&actual_shape, symbol_table)` with the caller's table: `let f = func(a) => a; let a = \"text\"; "
+               "let r = f(2); let s = a + \" more\";` is rejected (\"Expected int but got str\") although it evaluates")
+    return r
+
+
 from . import c09 as _c09
 
-RULES = [r21a, r21b, r21c, r21h, r21p, _c09.r25p]
+RULES = [r21a, r21b, r21c, r21h, r21p, r21s, r21d, r21n, _c09.r25p]
